@@ -21,7 +21,7 @@ best, size = None, 0
 for k in range(len(idx)):
     ev = [r["e"] for r in seg(k)]
     segs = [r["seg"] for r in seg(k) if r["e"] == "SetDetPair"]
-    if all(e in ev for e in ("IterGeo", "IterBlock", "KLStep")) and max(segs) > 0:
+    if all(e in ev for e in ("IterGeo", "IterBlock", "KLStep", "MLEStep")) and max(segs) > 0:
         n = len(seg(k)[1]["m"])
         if 100 < n and (best is None or n < size):
             best, size = k, n
@@ -98,6 +98,43 @@ def drop_return(s):
 
 
 variant(drop_return, "Begin without its return")
+
+
+def mle_exact(kind):      # an estimate written by the whole estimation function on an exact instance
+    def f(s):
+        for i, r in enumerate(s):
+            if r["e"] == "MLEStep" and r["kind"] == kind and "m" in r:
+                j = random.choice([j for j, v in enumerate(r["m"]) if v != 0])
+                r["ex"][j] += 1
+                return i
+        raise SystemExit("no exact MLEStep " + kind)
+    return f
+
+
+for kind in ("eff", "geo", "block"):
+    variant(mle_exact(kind), "MLEStep exact " + kind)
+
+
+def mle_block_up(s):      # the block step of an outer iteration raises the distance over the stored entries
+    for i, r in enumerate(s):
+        if r["e"] == "MLEStep" and r["kind"] == "block" and "cells" in r and i > 0 and s[i - 1]["e"] == "MLEStep" and "cells" in s[i - 1]:
+            r["cells"] = [v + 60000 for v in r["cells"]]
+            return i
+    raise SystemExit("no dyadic MLEStep block")
+
+
+variant(mle_block_up, "MLEStep: block step goes up")
+
+
+def mle_order(s):         # a result file missing: the steps are out of order
+    for i, r in enumerate(s):
+        if r["e"] == "MLEStep" and r["kind"] == "geo":
+            del s[i]
+            return i
+    raise SystemExit("no MLEStep geo")
+
+
+variant(mle_order, "MLEStep: geometric step missing")
 
 
 def drop_apply(s):
